@@ -306,6 +306,7 @@ class RecordRun:
             kill(self.link)
         elif a == "Lose":
             self.held = b""
+            self.wire[:] = []
             kill(self.link)
             pump()
         self._collect()
@@ -444,6 +445,77 @@ def model_to_acts(states):
     return acts
 
 
+REC_T_PROJ = ("[sent |-> Len(sent), inflight |-> Len(wire), nextNonce |-> nextNonce, delivered |-> delivered, queued |-> queued, "
+              "reads |-> reads, failedReads |-> failedReads, rstate |-> rstate, consumerDone |-> consumerDone]")
+
+
+def rec_state(run):
+    t = run.dst.transport
+    if not t.connected:
+        return "lost"
+    if run.dst.state == "hung up" or t.disconnecting:
+        return "hung up"
+    return "records"
+
+
+def rec_projection(run):
+    run._collect()
+    queued = [run._ident(r, len(run.got) + k) for k, r in enumerate(run.dst._inbound_records)]
+    return {"sent": len(run.payloads), "inflight": len(run.wire), "nextNonce": run.dst.next_receive_nonce,
+            "delivered": list(run.got), "queued": queued, "reads": sum(1 for r in run.reads if r is None),
+            "failedReads": sum(1 for r in run.reads if r == "err"), "rstate": rec_state(run), "consumerDone": run.consumer_done}
+
+
+def rec_enabled(run, consts, manip):
+    acts = []
+    st = rec_state(run)
+    if len(run.payloads) < consts["MaxRecords"]:
+        acts += [("Send", len(run.payloads) + 1, "-")] * 2
+    if st != "lost":
+        n = len(run.wire)
+        if n:
+            acts += [("Recv", 0, "-")] * 4
+        if manip < consts["MaxManip"]:
+            for i in range(1, n + 1):
+                acts += [("Flip", i, w) for w in ("nonce", "body", "tag")] + [("Delete", i, "-"), ("Replay", i, "-")]
+                if i < n:
+                    acts.append(("Swap", i, "-"))
+            for i in range(1, n + 2):
+                acts.append(("Inject", i, run.rng.randrange(0, consts["MaxRecords"] + 1)))
+        if not consts["ConsumerMode"] and len(run.reads) < consts["MaxReads"]:
+            acts += [("Read", 0, "-")] * 2
+        acts.append(("Cut", 0, "-"))
+        if st == "hung up":
+            acts += [("Lose", 0, "-")] * 2
+    return acts
+
+
+def record_walk(tid, consts, rng, nsteps=25):
+    """Code -> spec for C06: a seeded random walk over a real negotiated Connection pair with the adversary on the wire (whole
+    frames; length prefixes are left alone - after an altered one the model only says the framing is lost), recorded for
+    validation against TransitRecords.tla"""
+    # (consumer walks: profiles whose last record is not empty - a consumer is done when it has its bytes, DESIGN 7.3)
+    run = RecordRun(tid, "s2r" if tid % 2 else "r2s", "whole", consts["ConsumerMode"], rng,
+                    rng.choice([SIZE_PROFILES[0], SIZE_PROFILES[4]] if consts["ConsumerMode"] else SIZE_PROFILES[:2] + SIZE_PROFILES[4:]))
+    # (a transport whose close is asynchronous: after the connection has hung up it is still there until the Lose step, as in
+    # the model; what arrives meanwhile is handed to the protocol, which must ignore it)
+    run.async_close = True
+    if consts["ConsumerMode"]:
+        run.attach_consumer(consts["MaxRecords"])
+    lines = []
+    manip = 0
+    for _ in range(nsteps):
+        acts = rec_enabled(run, consts, manip)
+        if not acts:
+            break
+        la = rng.choice(acts)
+        if la[0] in ("Flip", "Delete", "Swap", "Replay", "Inject"):
+            manip += 1
+        run.do(la)
+        lines.append({"a": list(la), "proj": rec_projection(run)})
+    return run, lines
+
+
 SIZE_PROFILES = [[5, 0, 17], [0, 1, 2], [16384, 3, 70000], [1, 65537, 0], [40, 40, 41]]
 
 
@@ -546,6 +618,33 @@ def run_c06(prop, tier):
                 runs[tid] = run
                 if any(a[0] in ("Flip", "Delete", "Swap", "Replay", "Inject", "Cut") for a in acts):
                     nontrivial.add((tuple(acts), direction, chunking))
+        # code -> spec: seeded random walks over real connections, validated by TLC against TransitRecords.tla
+        wrng = random.Random(seed * 7919 + 6)
+        tv = {"walks": 0, "accepted": 0, "rejected": []}
+        for name, consts in (("walk_queue", dict(MaxRecords=4, MaxManip=2, MaxReads=5, ConsumerMode=False)),
+                             ("walk_consumer", dict(MaxRecords=4, MaxManip=2, MaxReads=0, ConsumerMode=True))):
+            traces = {}
+            for _ in range(40 if quick else 400):
+                tid += 1
+                run, lines = record_walk(tid, consts, random.Random(wrng.random()))
+                traces[tid] = lines
+                rec = run.finish()
+                rec["origin"] = "real-walk"
+                records.append(rec)
+                runs[tid] = run
+            res, r_ = common.trace_validate(wd, "TransitRecords", consts, traces, REC_T_PROJ, "MC_C06_trace_" + name)
+            for t, (reached, total) in sorted(res.items()):
+                tv["walks"] += 1
+                if reached == total:
+                    tv["accepted"] += 1
+                elif len(tv["rejected"]) < 6:
+                    tv["rejected"].append({"tid": t, "config": name, "matched_lines": reached, "of": total,
+                                           "next_line": traces[t][reached] if reached < total else None,
+                                           "schedule": [list(a) for a in runs[t].schedule[:reached + 1]]})
+        cov["trace_validation"] = dict(tv, rule="each walk = up to 25 steps (send, receive, read, adversary operations on whole frames, cut) on "
+                                       "a real negotiated Connection pair; accepted = TransitRecords.tla has a behaviour with the same "
+                                       "actions and the same projection (records sent / in flight, next expected nonce, delivered and "
+                                       "queued payloads, outstanding and failed reads, connection state, consumer result) after every step")
         # observer
         path = wd.file("obs.ndjson")
         with open(path, "w") as f:
